@@ -28,11 +28,11 @@ PLAN = {
     "quick": {("C16", "r1a"): 2400, ("C16", "r1b"): 2400, ("C16", "r3"): 320,
               ("C17", "r2"): 4800, ("C17", "r3"): 480,
               ("C19", "r4a"): 4800, ("C19", "r4b"): 480},
-    "thorough": {("C16", "r1a"): 40000, ("C16", "r1b"): 60000, ("C16", "r3"): 8000,
-                 ("C17", "r2"): 160000, ("C17", "r3"): 16000,
-                 ("C19", "r4a"): 120000, ("C19", "r4b"): 12000},
+    "thorough": {("C16", "r1a"): 150000, ("C16", "r1b"): 400000, ("C16", "r3"): 40000,
+                 ("C17", "r2"): 200000, ("C17", "r3"): 60000,
+                 ("C19", "r4a"): 800000, ("C19", "r4b"): 200000},
 }
-WALL_CAP = {"quick": 150.0, "thorough": 3000.0}
+WALL_CAP = {"quick": 150.0, "thorough": 2700.0}
 RUN_WATCHDOG_S = 300
 
 
